@@ -21,10 +21,10 @@ const CTX = { names: NAMES, arrays: ['arr'], objects: ['ob'], fns: ['fn'], ctors
 function literalWorkload() {
   const out = []
   const digs = ['0', '1', '7', '8', '9']
-  const prefixes = ['', '0', '0x', '.', '0.', '1.']
+  const prefixes = ['', '0', '0x', '0X', '.', '0.', '1.']
   const hexd = ['0', '9', 'a', 'F', 'f']
   for (const p of prefixes) {
-    const alphabet = p === '0x' ? hexd : digs
+    const alphabet = p === '0x' || p === '0X' ? hexd : digs
     const strs = ['']
     for (let len = 1; len <= 3; len++) {
       const n = strs.length
@@ -36,7 +36,7 @@ function literalWorkload() {
     if (fill !== 'f') { out.push(fill.repeat(len)); out.push('0' + fill.repeat(len)); out.push('1.' + fill.repeat(len)); out.push('.' + fill.repeat(len)) }
     if (fill !== '9') out.push('0x' + fill.repeat(len))
   }
-  for (const m of ['1', '0', '9.5', '.5', '5.', '123']) for (const sgn of ['e', 'e-']) for (const ex of ['0', '1', '5', '21', '308', '309', '400', '999'])
+  for (const m of ['1', '0', '9.5', '.5', '5.', '123']) for (const sgn of ['e', 'e-', 'e+', 'E', 'E-', 'E+']) for (const ex of ['0', '1', '5', '21', '308', '309', '400', '999'])
     out.push(m + sgn + ex)
   // rounding boundaries of the f64 reading: integers of L significant bits that sit on, just above and just
   // below a round-half-even tie (even and odd lower neighbour), the deciding bit directly below the tie
